@@ -11,7 +11,7 @@ theorem eol_mid (P R : List (Option Tok)) (a : Option Tok) (pr : Bool) :
     (⟨P ++ a :: R, P.length, pr⟩ : Helper).eol = false := by
   simp [Helper.eol]
 
-theorem popAll_noneol (adv : Bool) (top : Helper) (rest : List Helper) (ne : List String) (h : top.eol = false) :
+theorem popAll_noneol (adv : Bool) (top : Helper) (rest : List Helper) (ne : NoExp) (h : top.eol = false) :
     popAll adv top rest ne = .ok top rest ne := by
   cases rest <;> simp [popAll, h]
 
@@ -24,11 +24,11 @@ theorem peekDown_mid (P R : List (Option Tok)) (a : Tok) (pr : Bool) (rest : Lis
   rw [peekDown_noneol _ _ (eol_mid P R (some a) pr)]
   simp
 
-theorem consume_mid (adv : Bool) (P R : List (Option Tok)) (a : Tok) (pr : Bool) (rest : List Helper) (ne : List String) :
+theorem consume_mid (adv : Bool) (P R : List (Option Tok)) (a : Tok) (pr : Bool) (rest : List Helper) (ne : NoExp) :
     consume adv ⟨P ++ some a :: R, P.length, pr⟩ rest ne = .ok a ⟨P ++ none :: R, P.length + 1, pr⟩ rest ne := by
   simp [consume, popAll_noneol adv _ rest ne (eol_mid P R (some a) pr)]
 
-theorem replaceTop_mid (adv : Bool) (P R : List (Option Tok)) (a : Option Tok) (pr : Bool) (rest : List Helper) (ne : List String)
+theorem replaceTop_mid (adv : Bool) (P R : List (Option Tok)) (a : Option Tok) (pr : Bool) (rest : List Helper) (ne : NoExp)
     (F : List Frame) (x : Tok) :
     replaceTop adv ⟨P ++ a :: R, P.length, pr⟩ rest ne F x = .cont ⟨⟨P ++ some x :: R, P.length + 1, pr⟩ :: rest, ne, F, none⟩ := by
   simp [replaceTop, popAll_noneol adv _ rest ne (eol_mid P R a pr)]
@@ -62,7 +62,7 @@ theorem stepDefined_paren (adv : Bool) (tbl : Table) (s : MS) (P R : List (Optio
   simp
 
 /-- **`defined X`**: for every table and every context (prefix, lower streams, disabled names, suspended calls) -/
-theorem step_defined_plain (c : Cfg) (tbl : Table) (P R : List (Option Tok)) (S : List Helper) (D : List String) (F : List Frame) (pr : Bool)
+theorem step_defined_plain (c : Cfg) (tbl : Table) (P R : List (Option Tok)) (S : List Helper) (D : NoExp) (F : List Frame) (pr : Bool)
     (dt x : Tok) (hd : dt.kind = .ident) (hdt : dt.text = "defined") (hx : x.kind = .ident) (hxp : x.text ≠ "(") :
     step c tbl ⟨⟨P ++ some dt :: some x :: R, P.length, pr⟩ :: S, D, F, none⟩
       = .cont ⟨⟨P ++ none :: some (numTok (isDefined tbl x.text) x.pw) :: R, P.length + 2, pr⟩ :: S, D, F, none⟩ := by
@@ -73,7 +73,7 @@ theorem step_defined_plain (c : Cfg) (tbl : Table) (P R : List (Option Tok)) (S 
   simp
 
 /-- **`defined ( X )`** -/
-theorem step_defined_paren (c : Cfg) (tbl : Table) (P R : List (Option Tok)) (S : List Helper) (D : List String) (F : List Frame) (pr : Bool)
+theorem step_defined_paren (c : Cfg) (tbl : Table) (P R : List (Option Tok)) (S : List Helper) (D : NoExp) (F : List Frame) (pr : Bool)
     (dt lp x rp : Tok) (hd : dt.kind = .ident) (hdt : dt.text = "defined") (hlp : lp.text = "(") (hx : x.kind = .ident) (hrp : rp.text = ")") :
     step c tbl ⟨⟨P ++ some dt :: some lp :: some x :: some rp :: R, P.length, pr⟩ :: S, D, F, none⟩
       = .cont ⟨⟨P ++ none :: none :: none :: some (numTok (isDefined tbl x.text) x.pw) :: R, P.length + 4, pr⟩ :: S, D, F, none⟩ := by
